@@ -3,6 +3,7 @@ import PartituraModel.Model.Unfold
 import PartituraModel.Model.UnfoldFam
 import PartituraModel.Model.UnfoldIds
 import PartituraModel.Model.UnfoldEntry
+import PartituraModel.Model.UnfoldAlign
 
 open Wire Model.Unfold
 
@@ -29,6 +30,10 @@ Requests (L = layout, PART = abstract part):
   entry smin  n (L PART)*                -> [variant] | err   `unfold_part_minimal(Score(parts)).parts`
   entry visits L idx                     -> (count,[(start,end,offset)]) | err   `make_score_variants(part)[idx].segment_times`
   entry align L PART nids id*            -> variant | err           the variant `unfold_part_alignment` returns for these score ids
+  entry alignx L PART nal (label sid|-)*  -> (variant,[sid|-]) | err   `unfold_part_alignment(part, alignment)` as a whole (round 6): the
+                                            alignment as (label, score_id or `-` = key absent); the returned part and the score ids of
+                                            the caller's alignment AFTER the call (Model/UnfoldAlign.lean)
+  alits                                  -> the generated literals of Gen/C09Align.lean
   lits                                   -> the generated literals the entry-point model uses (Gen/C09Lits.lean)
 Destinations are printed as segment numbers, `END` as `E`.  Note ids are printed as `=<id>`, a missing id as `-`.
 -/
@@ -157,11 +162,23 @@ def handleEntry (ts : List String) : String :=
     | none => "bad-request"
     | some (L, p, ids) =>
       ((alignmentCandidates L p FUEL).bind fun cs => (alignPick cs ids).bind fun k => (cs[k]?).map fmtVariant).getD "err"
+  | "alignx" :: rest =>
+    match run (do let L ← pLayout; let p ← pPart
+                  let al ← list (do let lb ← str; let sid ← opt str; pure ({ label := lb, sid := sid } : AEntry))
+                  pure (L, p, al)) rest with
+    | none => "bad-request"
+    | some (L, p, al) =>
+      ((unfoldPartAlignment L p al FUEL).map fun r =>
+        fmtTuple [fmtVariant r.1, fmtList (fun e : AEntry => match e.sid with | none => "-" | some s => "=" ++ s) r.2]).getD "err"
   | _ => "bad-request"
 
 def handle (ts : List String) : String :=
   match ts with
   | "entry" :: rest => handleEntry rest
+  | ["alits"] =>
+    fmtTuple [fmtList id Gen.C09.ALIGN_PROBED, fmtList id Gen.C09.ALIGN_LABELS, fmtBool Gen.C09.ALIGN_KEYERROR,
+      fmtBool Gen.C09.ALIGN_OTHER_NOKEY_OK, Gen.C09.ALIGN_SUFFIX, fmtBool Gen.C09.ALIGN_MARK_IS_SUFFIX,
+      fmtBool Gen.C09.ALIGN_REWRITE_ALL, fmtBool Gen.C09.ALIGN_NO_REWRITE_ON_ERROR]
   | ["lits"] =>
     fmtTuple [fmtList id Gen.C09.DROPPED, fmtList id Gen.C09.KEPT, Gen.C09.ID_SEP, fmtNat Gen.C09.ID_FIRST,
       fmtNat Gen.C09.SEG_ID_BASE, fmtList fmtNat Gen.C09.END,
